@@ -153,9 +153,9 @@ def audit(pid, modules):
     axioms = {}
     problems = []
     flat = re.sub(r"\n\s+", " ", out)
-    for m in re.finditer(r"'([^']+)' depends on axioms: \[([^\]]*)\]", flat):
+    for m in re.finditer(r"'(\S+)' depends on axioms: \[([^\]]*)\]", flat):
         axioms[m.group(1)] = [a.strip() for a in m.group(2).split(",") if a.strip()]
-    for m in re.finditer(r"'([^']+)' does not depend on any axioms", flat):
+    for m in re.finditer(r"'(\S+)' does not depend on any axioms", flat):
         axioms[m.group(1)] = []
     for nme in names:
         if nme not in axioms:
